@@ -272,7 +272,7 @@ def cases(tier):
 
     add("case_first_guess", "first_guess")
     for m in ([1] if q else [1, 2]):
-        add("case_newton", f"newton_maxiter{m}", maxiter=m, opts=dict(weight=10 ** m, case_timeout_s=280 if q else 3000,
+        add("case_newton", f"newton_maxiter{m}", maxiter=m, opts=dict(weight=10 ** m, case_timeout_s=900 if q else 3000,
                                                                    check_timeout_ms=20000))
     for deep in (True, False):
         for big in (True, False):
